@@ -87,6 +87,15 @@ class EnumDB:
                         self.local.setdefault(n, t)
             except OSError:
                 pass
+        # pin_project `#[project = Proj] enum E {..}`: the projection enum has E's variants
+        for f in glob.glob(os.path.join(repo_root, 'crates/*/src/**/*.rs'), recursive=True):
+            try:
+                src = _strip_comments(open(f, errors='replace').read())
+            except OSError:
+                continue
+            for m in re.finditer(r'#\[project(?:_ref|_replace)?\s*=\s*(\w+)\]\s*(?:#\[[^\]]*\]\s*)*(?:pub(?:\([^)]*\))?\s+)?enum\s+(\w+)', src):
+                if m.group(2) in self.local:
+                    self.local.setdefault(m.group(1), self.local[m.group(2)])
         self.registry = registry
         self.lock = self._lock(os.path.join(repo_root, 'Cargo.lock'))
         self._ext = {}
@@ -167,6 +176,12 @@ class EnumDB:
         if t and variant in t:
             return t[variant]
         return None
+
+    def find_variant(self, variant):
+        """(Enum, Variant) when exactly one known (crate-local or std) enum has a variant of that name"""
+        hits = [en for en, t in list(self.local.items()) + list(self.tables.items()) if variant in t]
+        hits = sorted(set(hits))
+        return (hits[0], variant) if len(hits) == 1 else None
 
     def lookup_path(self, path):
         """'a::b::Enum::Variant' -> (Enum, Variant) if Enum is a known enum with that variant"""
